@@ -57,7 +57,7 @@ def check(ctx):
         o = ctx.ob(f'{n}_fill_books_where_search_accepts', 'R11',
                    f"{n}: the search accepts a day on `free > 0` and the fill books on every visited day with `free > 0` (same test): a "
                    f"scheduler-chosen start day always gets a reservation", floor=2)
-        ctx.guarded(o, lambda o, S=S: sched_fill.first_fit_and_greedy(ctx, o, S))
+        ctx.guarded(o, lambda o, S=S: sched_fill.first_fit_and_greedy(ctx, o, S, greedy=False))
 
         o = ctx.ob(f'{n}_fraction_selector', 'R11',
                    f"{n}: every ledger query (search, fill, post-loop date fraction) uses the balancing selector, so dates and "
@@ -79,6 +79,8 @@ def check(ctx):
                "Task.clone hands every private data field (estimate, spent) to the copy unconditionally: remaining work is computed "
                "on the copy", floor=1)
     ctx.guarded(o, lambda o: _c10._fields(ctx, o))
+    # only the data fields the remaining work is computed from concern C04; how custom attributes are copied is C10's / C14's clause
+    o.refuted = [f_ for f_ in o.refuted if 'estimate' in f_.msg or 'spent' in f_.msg]
 
     psf = PassShape(ctx, FWD)
     o = ctx.ob('forward_first_day_and_today', 'R8',
@@ -88,6 +90,11 @@ def check(ctx):
                "forward: on every path the date handed to the fill loop is bounded below by task.start (the user's start when it is "
                "fixed, the start just computed otherwise)", floor=1)
     ctx.guarded(o, lambda o: fill_from_task_start(ctx, o, psf))
+
+    o = ctx.ob('forward_start_is_the_search_result', 'R8',
+               "forward: the start the scheduler chooses for a leaf is the date the availability search returned - it is not moved "
+               "afterwards (the search result is the first day the fill loop books)", floor=1)
+    ctx.guarded(o, lambda o: start_is_search_result(ctx, o, psf))
 
     psb = PassShape(ctx, BWD)
     o = ctx.ob('backward_first_day', 'R8',
@@ -306,6 +313,32 @@ def fill_from_task_start(ctx, o, ps: PassShape):
                                              f"the user fixed the reservations do not begin at that start")
 
 
+def start_is_search_result(ctx, o, ps: PassShape):
+    search = ctx.prog.func(ps.S['search'])
+
+    def has_search(e):
+        return any(isinstance(x, ast.Call) and isinstance(x.func, ast.Attribute) and unmangle(x.func.attr) == search.name for x in ast.walk(e))
+    sts = [x for x in ps.stores('start') if x[3]['milestone'] is False and x[3]['leaf'] is True]
+    found = [x for x in sts if has_search(x[2])]
+    if not found:
+        # the search result may reach task.start through a local
+        found = [x for x in sts if has_search(ps.ex.expand(x[2], ps.cfg.node_of(x[0])))]
+    if not found:
+        o.undecided(ps.f, ps.f.node, 'leaf start', "no store of the search result to task.start recognised")
+        return
+    fn = ps.cfg.node_of(found[0][0])
+    def is_search(e):
+        return isinstance(e, ast.Call) and isinstance(e.func, ast.Attribute) and unmangle(e.func.attr) == search.name
+    later = [x for x in sts if x[0] is not found[0][0] and ps.cfg.node_of(x[0]) is not None and ps.cfg.can_reach(fn, ps.cfg.node_of(x[0]))
+             and not is_search(x[2]) and not is_search(ps.ex.expand(x[2], ps.cfg.node_of(x[0])))]
+    if later:
+        st = later[0][0]
+        o.refute(ps.f, st, st, f"after the availability search the start of the leaf is changed again by `{src(st)[:80]}`: the start no longer is the "
+                               f"day (and day share) the search found, while the work is still booked from the search's day on")
+    else:
+        o.site(ps.f, found[0][0], "task.start = search result, not changed afterwards")
+
+
 def only_leaves(ctx, o, ps: PassShape):
     fill = ctx.prog.func(ps.S['fill'])
     for c in facts.calls_named(ps.f, fill.name):
@@ -320,6 +353,13 @@ def only_leaves(ctx, o, ps: PassShape):
                         ": cannot tell whether " + ' and '.join(bad) + " are excluded")
         elif bad:
             o.refute(ps.f, c, c, "work can be reserved for " + ' and '.join(bad))
+        elif ps.S['dir'] == -1 and reg['other'] and all({x.id for x in ast.walk(t) if isinstance(x, ast.Name)} <= {ps.task, 'len'}
+                                                        for t, _ in reg['other']):
+            # backward: every working leaf books its remaining work, whatever dates the user gave
+            o.refute(ps.f, c, c, "the remaining work of a leaf is reserved only when " + ', '.join(facts.cond_texts(reg['other']))[:120] +
+                     ": a working leaf for which that does not hold gets nothing reserved although estimate - spent is left")
+        elif ps.S['dir'] == -1 and (reg['other'] or any(v for k, v in reg['is_none'].items())):
+            o.undecided(ps.f, c, c, "the fill call of a leaf is additionally guarded by " + ', '.join(facts.cond_texts(ps.conds(c)))[:100])
         else:
             o.site(ps.f, c, "fill call region: not milestone, leaf")
     # the fill loop has no other caller
